@@ -70,7 +70,7 @@ func NewReport(property string) *Report {
 	}
 	seed, _ := strconv.ParseInt(os.Getenv("VERIF_SEED"), 10, 64)
 	return &Report{
-		Property: property, Tier: tier, Seed: seed, start: time.Now(),
+		Property: property, Tier: tier, Seed: seed, start: time.VerifRealNow(),
 		violations: map[string]*Violation{}, vioCount: map[string]int{},
 		nontrivial: map[uint64]struct{}{}, outcomes: map[string]int64{},
 		Exhaustive: true, Extra: map[string]interface{}{}, maxSamples: 6,
@@ -266,7 +266,7 @@ func (r *Report) Finish() {
 	}
 	ev := map[string]interface{}{
 		"property_id": r.Property, "tier": r.Tier, "seed": r.Seed, "level": "model_checking",
-		"coverage": cov, "assumptions": r.Assumptions, "wall_s": time.Since(r.start).Seconds(),
+		"coverage": cov, "assumptions": r.Assumptions, "wall_s": time.VerifRealNow().Sub(r.start).Seconds(),
 		"violations": unlisted,
 	}
 	if r.Assumptions == nil {
@@ -279,7 +279,7 @@ func (r *Report) Finish() {
 		os.Exit(2)
 	}
 	fmt.Printf("%s %s: evaluations=%d states=%d transitions=%d distinct_nontrivial=%d outcomes=%d exhaustive=%v violations=%d known=%d wall=%.1fs\n",
-		r.Property, r.Tier, r.Evaluations, r.States, r.Transitions, len(r.nontrivial), len(r.outcomes), r.Exhaustive, unlisted, len(r.order)-unlisted, time.Since(r.start).Seconds())
+		r.Property, r.Tier, r.Evaluations, r.States, r.Transitions, len(r.nontrivial), len(r.outcomes), r.Exhaustive, unlisted, len(r.order)-unlisted, time.VerifRealNow().Sub(r.start).Seconds())
 	if unlisted > 0 {
 		os.Exit(1)
 	}
@@ -301,4 +301,32 @@ func J(v interface{}) string {
 		return fmt.Sprintf("%+v", v)
 	}
 	return string(b)
+}
+
+// RawViolations exports the recorded violations (worker -> parent hand-over).
+func (r *Report) RawViolations() []map[string]interface{} {
+	r.mu.Lock()
+	defer r.mu.Unlock()
+	var out []map[string]interface{}
+	for _, sig := range r.order {
+		v := r.violations[sig]
+		out = append(out, map[string]interface{}{"signature": v.Signature, "detail": v.Detail, "replay": v.Replay, "occurrences": r.vioCount[sig]})
+	}
+	return out
+}
+
+// Caps returns the reasons the run was not exhaustive.
+func (r *Report) Caps() []string {
+	r.mu.Lock()
+	defer r.mu.Unlock()
+	caps, _ := r.Extra["caps_hit"].([]string)
+	return caps
+}
+
+// NontrivialN registers n distinct cases under a namespace (used when the distinct cases are the states of a
+// search that were already deduplicated by the search itself).
+func (r *Report) NontrivialN(ns string, n int) {
+	for i := 0; i < n; i++ {
+		r.Nontrivial(ns + "#" + strconv.Itoa(i))
+	}
 }
